@@ -45,6 +45,9 @@ def check(run, driver):
         dx, dy = int(rng.integers(1, 4)), int(rng.integers(1, 4))
         dz = int(rng.integers(1, 4)) if it % 2 else 0
         k = int(rng.integers(1, min(10, N - 1) + 1))
+        if it in (8, 26):       # samples of a few hundred points (both paths: 8 has no conditioning set, 26 ... see dz), sizes that are not round numbers (blocked / batched evaluation lives there)
+            N = [257, 300][it == 25] if not thorough else int(rng.choice([257, 300, 513, 600]))
+            dx = dy = 1; dz = 0 if it == 8 else 1; k = int(rng.integers(1, 6))
         if it % 9 == 4:       # the largest admissible neighbour count, k = N - 1 (small samples), on both paths and all metrics
             N = int(rng.integers(4, 11)); k = N - 1
         metric = METRICS[it % 3]
